@@ -30,6 +30,7 @@ func runC20(c *Ctx) {
 	info := ctor.Pkg.TypesInfo
 	// goroutines started in the helper package (non-test)
 	var goFns []*load.FuncInfo
+	goCalls := map[*load.FuncInfo]*ast.CallExpr{}
 	nGo := 0
 	for _, fi := range c.P.Funcs() {
 		if fi.Pkg.PkgPath != load.HelperPkg {
@@ -44,6 +45,7 @@ func runC20(c *Ctx) {
 			if f := gf.StaticCallee(fi.Pkg.TypesInfo, g.Call); f != nil {
 				if t := c.P.FuncInfoOf(f); t != nil {
 					goFns = append(goFns, t)
+					goCalls[t] = g.Call
 					return true
 				}
 			}
@@ -85,15 +87,34 @@ func runC20(c *Ctx) {
 	c.Check(unbuf, "C20.5-unbuffered-result", "newHijackWatch: result channel", ctor.Decl.Pos(), "make(chan watch.Event) without capacity: order and multiplicity follow from one send per receive", "the result channel is buffered or not created here")
 	_ = info
 	for _, g := range goFns {
-		c.relayFunction(g)
+		c.relayFunction(g, goCalls[g])
 	}
 	c.lockDiscipline()
 }
 
-func (c *Ctx) relayFunction(fi *load.FuncInfo) {
+func (c *Ctx) relayFunction(fi *load.FuncInfo, goCall *ast.CallExpr) {
 	fn, an := c.Analysis(fi)
 	info := fi.Pkg.TypesInfo
 	name := fi.Obj.Name()
+	// the field (or method) of the watch that an expression of the relay denotes: w.done itself, or a parameter
+	// of the relay bound to w.done where the goroutine is started
+	sigParams := fi.Obj.Type().(*types.Signature).Params()
+	fieldOf := func(e ast.Expr) string {
+		switch x := ast.Unparen(e).(type) {
+		case *ast.SelectorExpr:
+			return x.Sel.Name
+		case *ast.Ident:
+			o := info.ObjectOf(x)
+			for k := 0; k < sigParams.Len(); k++ {
+				if sigParams.At(k) == o && goCall != nil && k < len(goCall.Args) {
+					if sel, ok := ast.Unparen(goCall.Args[k]).(*ast.SelectorExpr); ok {
+						return sel.Sel.Name
+					}
+				}
+			}
+		}
+		return ""
+	}
 	reach := c.G.ReachDirect(fi.Obj)
 	// the receive: `event, ok := <-src` comm of a select clause (or plain)
 	var recv *ast.AssignStmt
@@ -259,7 +280,7 @@ func (c *Ctx) relayFunction(fi *load.FuncInfo) {
 						if !ok || u.Op != token.ARROW {
 							continue
 						}
-						if sel2, ok := ast.Unparen(u.X).(*ast.SelectorExpr); ok && closed[sel2.Sel.Name] && len(oc.Body) > 0 {
+						if fld := fieldOf(u.X); fld != "" && closed[fld] && len(oc.Body) > 0 {
 							// the sibling case leaves the relay: from its body neither the receive nor a send is reached again
 							aL := fn.From(oc.Body[0], gf.TrueState())
 							leaves := !aL.Reentered(recv)
@@ -296,12 +317,14 @@ func (c *Ctx) relayFunction(fi *load.FuncInfo) {
 			continue
 		}
 		if id, ok := d.Call.Fun.(*ast.Ident); ok && id.Name == "close" && len(d.Call.Args) == 1 {
-			if sel, ok := d.Call.Args[0].(*ast.SelectorExpr); ok && sel.Sel.Name == "result" {
+			if fieldOf(d.Call.Args[0]) == "result" {
 				hasClose = true
 			}
 		}
 		if f := gf.StaticCallee(info, d.Call); f != nil && f.Name() == "Stop" {
 			hasStop = true
+		} else if f == nil && fieldOf(d.Call.Fun) == "Stop" {
+			hasStop = true // the watch's Stop method handed to the relay as a function value
 		}
 	}
 	c.Check(hasClose, "C20.3-close-on-every-exit", name+": defer close(result)", fi.Decl.Pos(), "deferred at the top of the relay: runs on every exit, panics included", "the result channel is not closed on every exit of the relay")
